@@ -11,7 +11,12 @@ innermost open batch.
 
 Ops on the real `MultiIndex<CommitPos>`: `push e pos height`, `pop e`, `popback e`, `rewind e pos`,
 `prune e cutoff` (`unimplemented!()` in the Rust: `panic`), `pruneback e cutoff` (the harness's loop
-over the real `pop_pos_back`), `clear`; `block-apply height prevSize size [e:rel:pos,…]` /
+over the real `pop_pos_back`), `clear`; `raw-put-entry e pos H|T|M p h next prev`, `raw-put-list e S|M a b`, `raw-del-entry e pos`,
+`raw-del-list e` (run `corrupt`: records written / deleted behind the index's back, after which
+only the model of the code is compared — its error branches); `block-apply height prevSize size [e:rel:pos,…]` /
+`rebuild-walk [h:size,…] [e:rel:pos,…]` (`verify_kernel_pos_index` from the first header: what
+the real `Chain::init` ran at a restart; model `verifyKernelPosIndexWalk` with the header walk,
+specification: every kernel at the height of the first header whose size reaches it);
 `block-rewind …` (the loops of `apply_kernels`+`apply_kernel_rules` / `rewind_single_block`; run
 `ops`: transliterated in the harness over the real primitives; run `chain`: what the real
 `Chain::process_block` did, reconstructed from the head movement).
@@ -30,6 +35,9 @@ abbrev Ex := String
 structure Layer where
   kv : KV Ex := {}
   sp : Spec Ex := fun _ => []
+  /-- records were written behind the index's back (`raw-*` ops of run `corrupt`): the list
+  specification no longer applies, only the model of the code is compared -/
+  corrupt : Bool := false
 
 structure St where
   committed : Layer := {}
@@ -65,12 +73,12 @@ def showRaw (kv : KV Ex) : String :=
   "K{" ++ ";".intercalate (ls.map fun (e, w) => s!"{e}={showWrapper (some w)}") ++ "} k{" ++
     ";".intercalate (es.map fun ((e, p), en) => s!"{e}@{p}={showEntry en}") ++ "}"
 
-/-- `abs` with the walk capped at 10000 steps (as the harness caps its walk over the real store) -/
+/-- `abs` with the walk capped at 1000 steps (as the harness caps its walk over the real store) -/
 def absShow (kv : KV Ex) (e : Ex) : List CommitPos :=
   match kv.getList e with
   | none => []
   | some (.single pos) => [pos]
-  | some (.multi head _) => walkFrom kv e (min (head + 1) 10000) head
+  | some (.multi head _) => walkFrom kv e 1000 head
 
 /-- `e:rel:pos` (`rel` = `-` for a kernel that is not NRD) -/
 def parseKernel (s : String) : Option (Kernel Ex × Nat) :=
@@ -86,6 +94,31 @@ def parseKernel (s : String) : Option (Kernel Ex × Nat) :=
 def parseKernels (s : String) : Option (List (Kernel Ex × Nat)) :=
   let inner := (s.drop 1).dropEnd 1 |>.toString
   if inner.isEmpty then some [] else (inner.splitOn ",").mapM parseKernel
+
+/-- `[h:size,h:size,…]` -/
+def parseHdrs (s : String) : Option (List (Nat × Nat)) :=
+  let inner := (s.drop 1).dropEnd 1 |>.toString
+  if inner.isEmpty then some [] else (inner.splitOn ",").mapM fun t =>
+    match t.splitOn ":" with
+    | [h, z] => match nat? h, nat? z with
+      | some h, some z => some (h, z)
+      | _, _ => none
+    | _ => none
+
+/-- the specification of a rebuild, formulated independently of the walk: every NRD kernel at the
+height of the first header whose kernel MMR size reaches its position -/
+def sRebuild (hdrs : List (Nat × Nat)) : Spec Ex → List (Kernel Ex × Nat) → SOut Ex Unit
+  | S, [] => ⟨S, .ok ()⟩
+  | S, (k, pos) :: rest =>
+    match k.nrd with
+    | none => sRebuild hdrs S rest
+    | some _ =>
+      match hdrs.find? (fun h => decide (pos ≤ h.2)) with
+      | none => ⟨S, .error .headerNotFound⟩
+      | some h =>
+        match sApplyKernelRules S k ⟨pos, h.1⟩ with
+        | ⟨S', .error err⟩ => ⟨S', .error err⟩
+        | ⟨S', .ok _⟩ => sRebuild hdrs S' rest
 
 /-- spec answer first (a deviation from it is a failing input), then the model's -/
 def verdict2 (spec model impl : String) : Verdict :=
@@ -125,53 +158,80 @@ def handle (st : St) (args : List String) (impl : String) : St × Verdict :=
   | top :: _ =>
   let kv := top.kv
   let sp := top.sp
+  let mk (kv' : KV Ex) (sp' : Spec Ex) : Layer := ⟨kv', sp', top.corrupt⟩
+  let verdict2 (spec model impl : String) : Verdict :=
+    if top.corrupt then cmpModel model impl else verdict2 spec model impl
   match args with
+  | ["raw-put-entry", e, p, kind, cp, ch, a, b] =>
+    match nat? p, nat? cp, nat? ch, nat? a, nat? b with
+    | some p, some cp, some ch, some a, some b =>
+      let en : Option ListEntry :=
+        if kind = "H" then some (.head ⟨cp, ch⟩ a) else if kind = "T" then some (.tail ⟨cp, ch⟩ b)
+        else if kind = "M" then some (.middle ⟨cp, ch⟩ a b) else none
+      match en with
+      | some en => (setTop st ⟨kv.putEntry e p en, sp, true⟩, cmpModel "ok" impl)
+      | none => (st, .unknown)
+    | _, _, _, _, _ => (st, .unknown)
+  | ["raw-put-list", e, kind, a, b] =>
+    match nat? a, nat? b with
+    | some a, some b =>
+      let w : Option ListWrapper :=
+        if kind = "S" then some (.single ⟨a, b⟩) else if kind = "M" then some (.multi a b) else none
+      match w with
+      | some w => (setTop st ⟨kv.putList e w, sp, true⟩, cmpModel "ok" impl)
+      | none => (st, .unknown)
+    | _, _ => (st, .unknown)
+  | ["raw-del-entry", e, p] =>
+    match nat? p with
+    | some p => (setTop st ⟨kv.delEntry e p, sp, true⟩, cmpModel "ok" impl)
+    | none => (st, .unknown)
+  | ["raw-del-list", e] => (setTop st ⟨kv.delList e, sp, true⟩, cmpModel "ok" impl)
   | ["push", e, p, h] =>
     match nat? p, nat? h with
     | some p, some h =>
       let o := pushPos kv e ⟨p, h⟩
       let s := sPush sp e ⟨p, h⟩
-      (setTop st ⟨o.kv, s.st⟩, verdict2 (showRes unitStr s.res) (showRes unitStr o.res) impl)
+      (setTop st (mk o.kv s.st), verdict2 (showRes unitStr s.res) (showRes unitStr o.res) impl)
     | _, _ => (st, .unknown)
   | ["pop", e] =>
     let o := popPos kv e
     let s := sPop sp e
-    (setTop st ⟨o.kv, s.st⟩, verdict2 (showRes showOptCP s.res) (showRes showOptCP o.res) impl)
+    (setTop st (mk o.kv s.st), verdict2 (showRes showOptCP s.res) (showRes showOptCP o.res) impl)
   | ["popback", e] =>
     let o := popPosBack kv e
     let s := sPopBack sp e
-    (setTop st ⟨o.kv, s.st⟩, verdict2 (showRes showOptCP s.res) (showRes showOptCP o.res) impl)
+    (setTop st (mk o.kv s.st), verdict2 (showRes showOptCP s.res) (showRes showOptCP o.res) impl)
   | ["rewind", e, r] =>
     match nat? r with
     | some r =>
       let o := rewind kv e r
       let s := sRewind sp e r
-      (setTop st ⟨o.kv, s.st⟩, verdict2 (showRes unitStr s.res) (showRes unitStr o.res) impl)
+      (setTop st (mk o.kv s.st), verdict2 (showRes unitStr s.res) (showRes unitStr o.res) impl)
     | none => (st, .unknown)
   | ["pruneback", e, c] =>
     match nat? c with
     | some c =>
       let o := pruneBack kv e c
       let s := sPruneBack sp e c
-      (setTop st ⟨o.kv, s.st⟩, verdict2 (showRes unitStr s.res) (showRes unitStr o.res) impl)
+      (setTop st (mk o.kv s.st), verdict2 (showRes unitStr s.res) (showRes unitStr o.res) impl)
     | none => (st, .unknown)
   | ["prune", e, c] =>
     match nat? c with
     | some c =>
       let o := prune kv e c
-      (setTop st ⟨o.kv, sp⟩, cmpModel (showRes unitStr o.res) impl)
+      (setTop st (mk o.kv sp), cmpModel (showRes unitStr o.res) impl)
     | none => (st, .unknown)
   | ["clear"] =>
     let o := clear kv
     let s := sClear sp
-    (setTop st ⟨o.kv, s.st⟩, verdict2 (showRes unitStr s.res) (showRes unitStr o.res) impl)
+    (setTop st (mk o.kv s.st), verdict2 (showRes unitStr s.res) (showRes unitStr o.res) impl)
   | ["block-apply", h, ps, sz, ks] =>
     match nat? h, nat? ps, nat? sz, parseKernels ks with
     | some h, some ps, some sz, some ks =>
       let b : Blk Ex := ⟨h, ps, sz, ks⟩
       let o := applyBlock kv b
       let s := sApplyBlock sp b
-      (setTop st ⟨o.kv, s.st⟩, verdict2 (showRes unitStr s.res) (showRes unitStr o.res) impl)
+      (setTop st (mk o.kv s.st), verdict2 (showRes unitStr s.res) (showRes unitStr o.res) impl)
     | _, _, _, _ => (st, .unknown)
   | ["block-rewind", h, ps, sz, ks] =>
     match nat? h, nat? ps, nat? sz, parseKernels ks with
@@ -179,14 +239,21 @@ def handle (st : St) (args : List String) (impl : String) : St × Verdict :=
       let b : Blk Ex := ⟨h, ps, sz, ks⟩
       let o := rewindSingleBlock kv b
       let s := sRewindSingleBlock sp b
-      (setTop st ⟨o.kv, s⟩, verdict2 "ok" (showRes unitStr o.res) impl)
+      (setTop st (mk o.kv s), verdict2 "ok" (showRes unitStr o.res) impl)
     | _, _, _, _ => (st, .unknown)
+  | ["rebuild-walk", hs, ks] =>
+    match parseHdrs hs, parseKernels ks with
+    | some (h0 :: later), some ks =>
+      let o := verifyKernelPosIndexWalk kv h0 later ks
+      let s := sRebuild (h0 :: later) (fun _ => []) ks
+      (setTop st (mk o.kv s.st), verdict2 (showRes unitStr s.res) (showRes unitStr o.res) impl)
+    | _, _ => (st, .unknown)
   | ["peek", e] =>
     (st, verdict2 (showOptCP (sPeek sp e)) (showRes showOptCP (peekPos kv e)) impl)
   | ["list", e] =>
     (st, verdict2 (showCPList (sp e)) (showCPList (absShow kv e)) impl)
   | ["back", e] =>
-    (st, verdict2 (showCPList (sp e).reverse) (showCPList (absBack kv e 10000)) impl)
+    (st, verdict2 (showCPList (sp e).reverse) (showCPList (absBack kv e 1000)) impl)
   | ["wrapper", e] => (st, cmpModel (showWrapper (kv.getList e)) impl)
   | ["raw"] => (st, cmpModel (showRaw kv) impl)
   | _ => (st, .unknown)
